@@ -7,9 +7,12 @@ import (
 	"encoding/json"
 	"fmt"
 	"math/rand/v2"
+	"os"
 	"runtime"
 	"sort"
 	"strings"
+	"sync"
+	"sync/atomic"
 	"testing"
 	"testing/synctest"
 	"time"
@@ -316,8 +319,41 @@ func (e *env) jitterDraw() float64 {
 var engines = map[string]func(e *env){}
 
 // execute runs the scenario in a fresh bubble. trace keeps the full event log.
+// Wall-clock watchdog: the simulator decides every interleaving it can see, but a library change that
+// holds a real lock across a call-out can still block a worker at OS level. A run that makes no progress
+// for hangAfter of wall time ends the worker with a diagnostic (the driver turns that into exit 2, an
+// internal error, never a VIOLATION).
+const hangAfter = 240 * time.Second
+
+var (
+	execStartNs atomic.Int64 // wall clock at the start of the execution in progress (0: idle)
+	execWhat    atomic.Value // description of that execution
+	watchOnce   sync.Once
+)
+
+func startHangWatchdog() {
+	watchOnce.Do(func() {
+		go func() {
+			for {
+				time.Sleep(5 * time.Second)
+
+				if st := execStartNs.Load(); st != 0 && time.Since(time.Unix(0, st)) > hangAfter {
+					fmt.Printf("INTERNAL worker hung: %v made no progress for %v of wall time (blocked outside the simulator's control)\n", execWhat.Load(), hangAfter)
+					os.Exit(3)
+				}
+			}
+		}()
+	})
+}
+
 func execute(t *testing.T, sc *Scenario, trace bool) (out *RunOut) {
 	out = &RunOut{}
+
+	startHangWatchdog()
+	execWhat.Store(fmt.Sprintf("prop=%s seed=%d run=%d engine=%s", sc.Prop, sc.Seed, sc.Run, sc.Engine))
+	execStartNs.Store(time.Now().UnixNano())
+
+	defer execStartNs.Store(0)
 
 	defer func() {
 		if r := recover(); r != nil {
